@@ -45,10 +45,12 @@ reg(Contract('dd.bdd.BDD.incref!external', [('self', 'mgr'), ('u', 'int')],
              pre=lambda c: [('ref', isref(c.S, c.a.u))], post=lambda c: [('count', bump(c.S0, c.S1, c.a.u, 1))],
              modifies=['ref', 'ext'], ret='none',
              note='incref called by a handle: the reference is an external one (ghost ext +1); same code as BDD.incref'))
+REG['dd.bdd.BDD.incref!external'].ghost = lambda c: {'ext': Store(c.S.ext, absz(c.a.u), c.S.ext[absz(c.a.u)] + 1)}
 reg(Contract('dd.bdd.BDD.decref!external', [('self', 'mgr'), ('u', 'int')],
              pre=lambda c: [('ref', isref(c.S, c.a.u)), ('holder-has-a-reference', And(c.S.ext[absz(c.a.u)] >= 1, c.S.ref[absz(c.a.u)] >= 1))],
              post=lambda c: [('count', bump(c.S0, c.S1, c.a.u, -1))], modifies=['ref', 'ext'], ret='none',
              note='decref called by a handle that holds a reference: ref and ghost ext -1; same code as BDD.decref'))
+REG['dd.bdd.BDD.decref!external'].ghost = lambda c: {'ext': Store(c.S.ext, absz(c.a.u), c.S.ext[absz(c.a.u)] - 1)}
 
 
 # ---- Function.__init__ / __del__ -----------------------------------------------------------------------------------------
